@@ -59,6 +59,9 @@ func init() {
 						}
 						raw := make([]byte, 1+rng.Intn(6))
 						rng.Read(raw)
+						if rng.Intn(2) == 0 {
+							raw[len(raw)-1] |= 0xe0 // literal context of the next chunk depends on this byte
+						}
 						g.content = append(g.content, raw...)
 						specs = append(specs, fmt.Sprintf("%s/-/%s", kn, hx(raw)))
 					default:
@@ -75,7 +78,11 @@ func init() {
 							g.resetState()
 						}
 						var ops []string
-						for j := 0; j < 1+rng.Intn(4); j++ {
+						nops := 1 + rng.Intn(4)
+						if rng.Intn(2) == 0 {
+							nops = 8 + rng.Intn(16) // enough operations for a stale state / dictionary to show
+						}
+						for j := 0; j < nops; j++ {
 							ops = append(ops, g.next())
 						}
 						specs = append(specs, fmt.Sprintf("%s/%s/%s", kn, props, strings.Join(ops, ".")))
